@@ -302,7 +302,7 @@ def check(args):
         sel = sorted([h for h in harnesses.values() if any(o in h.name for o in (args.only or []))], key=lambda h: h.name)
     else:
         sel = select(harnesses, prop, tier, args.only)
-    if not sel:
+    if not sel and not (prop == "DEV" and args.only and "c13_z3" in args.only):
         raise InfraError("no harness registered for %s at tier %s" % (prop, tier))
     random.Random(seed).shuffle(sel)
     known = load_known()
@@ -467,6 +467,9 @@ def check(args):
         if prop == "C10" and not args.only:
             from c10_engine import run_c10
             run_c10(ov, scratch, info, known, known_keys, tier, results, verdict, sel)
+        if (prop == "C13" and not args.only) or (prop == "DEV" and args.only and "c13_z3" in args.only):
+            from c13_engine import run_c13
+            run_c13(ov, scratch, info, known, known_keys, tier, results, verdict, sel)
         wall = time.time() - t_start
         if not args.no_evidence:
             write_evidence(prop, tier, seed, sel, results, verdict, info, wall, known)
